@@ -12,7 +12,10 @@ all statements are over ARBITRARY `Arr` (no well-formedness hypothesis).
   of the buffer the view designates (`bytes_in_range`, `view_in_range`, `fsb_in_range`, `dict_in_range`), and
   every successful element read is below the array's length (`isSome_ok_lt_len`): children are addressed only
   through `is_some`-guarded reads, so no element outside a child is ever returned.
-* `readAs_touch_in_range` (+ `readAny_…`, `readRecord_…`): a successful read implies the run-time predicate `touchOK`.
+* `readAs_touch_in_range` (+ `readAny_…`, `readRecord_…`): a successful read implies the run-time predicate `touchOK`
+  (every slot visited below the length of its array AND, at the leaves, the bytes of a valid slot inside the buffer the
+  offsets / the view descriptor designate: `touchOK_leaf_iff`, `leafOK_bytes_eq`, `leafOK_view_eq`,
+  `readAs_view_designated`, `readAs_bytes_designated`); `untouched_touch_in_range` ties it to `touchEq`.
 * `untouched_ok` (+ `untouched_ok_any`, `untouched_ok_isSome`, `untouched_corruption_ok`, `readRecord_untouched`,
   `readAll_untouched`): two views that agree on the footprint of a read (`Spec.touchEq`) give the same result;
   `touchEq_refl`.
@@ -546,7 +549,9 @@ theorem read_in_range {a : Arr} {idx : Nat} {d : DVal} (h : readAny Fixes.all a 
 
 `Spec.touchOK t a i` (SaModel/Spec/TouchRange.lean) is the run-time predicate of the `corrupt` suite: rows below the
 declared length, list / map / fixed-size elements and union / dictionary references below the child's length, for
-exactly the slots a read of target `t` has to visit.  The theorems below say that a successful read of the reader
+exactly the slots a read of target `t` has to visit, and at the leaves (`Spec.leafOK`) the offset pair of a valid Utf8 /
+Binary slot inside the data buffer, the descriptor of a valid Utf8View / BinaryView slot inline or inside a buffer the
+view HAS, a FixedSizeBinary row inside the data (also for the value slot a dictionary key designates).  The theorems below say that a successful read of the reader
 model implies it — for EVERY target and EVERY array (no well-formedness), given only `unionIdsOK a`: the union
 nodes of `a` list their children under the type ids 0, 1, 2, … .  That is what `ArrayDeserializer::new` checks and
 the reads do not re-check (`EnumDeserializer` indexes its variants by type id, the Arrow reading looks the id up),
@@ -622,6 +627,118 @@ theorem readRecord_touch_in_range {t : Target} {fm : FieldMeta} {col : Arr} {idx
 theorem readAs_ok_lt_len {t : Target} {a : Arr} {i : Nat} {d : DVal} (hids : unionIdsOK a = true)
     (h : readAs Fixes.all t a i = .ok d) : i < Spec.lenOf a :=
   touchOK_lt (readAs_touch_in_range hids h)
+
+/-! #### what `touchOK` says at the leaves: the bytes of a valid slot come from the buffer the view designates -/
+
+/-- `touchOK` of a leaf column, spelled out: the row is below the length and — unless the bitmap marks the slot null:
+then no bytes are designated — what the slot designates lies inside its buffer (`Spec.leafOK`: the offset pair of a
+Utf8 / Binary column inside `data`, the descriptor of a Utf8View / BinaryView column inline or inside a buffer the view
+HAS, the row of a FixedSizeBinary column inside `data`).  The target plays no role at a leaf. -/
+theorem touchOK_leaf_iff (t : Target) {a : Arr} (hl : isLeaf a = true) (i : Nat) :
+    touchOK t a i = true ↔ i < lenOf a ∧ (slotNull a i = true ∨ leafOK a i = true) := by
+  constructor
+  · intro h
+    have hlt := touchOK_lt h
+    refine ⟨hlt, ?_⟩
+    unfold touchOK at h
+    have : ¬ i ≥ lenOf a := by omega
+    simp only [this, if_false] at h
+    split at h
+    · rename_i hc
+      simp only [Bool.and_eq_true] at hc
+      exact Or.inl hc.2
+    · have h' : leafSlotOK a i = true := by
+        cases a <;> simp [isLeaf] at hl <;> exact h
+      simpa [leafSlotOK] using h'
+  · rintro ⟨hlt, hs⟩
+    exact touch_leaf t hl hlt (by simpa [leafSlotOK] using hs)
+
+/-- `leafOK` of a Utf8 / Binary column is "the offset pair designates a slice of the data buffer" — the `byteSlice` of
+the footprint relation `touchEq` -/
+theorem leafOK_bytes_eq (ty : BytesTy) (v : Option Bits) (offs : List Int) (data : Bytes) (i : Nat) :
+    leafOK (.bytes ty v offs data) i = (byteSlice data (offs.getD i 0) (offs.getD (i + 1) 0)).isSome := by
+  simp only [leafOK, byteSlice]
+  generalize offs.getD i 0 = s
+  generalize offs.getD (i + 1) 0 = e
+  by_cases hc : 0 ≤ s ∧ s ≤ e ∧ e ≤ (data.length : Int)
+  · simp only [hc, and_self, if_true, decide_true]; rfl
+  · simp only [hc, if_false, decide_false]; rfl
+
+/-- `leafOK` of a Utf8View / BinaryView column is "the descriptor designates bytes" under the Arrow reading rules
+(`Spec.decodeView`, through the `viewSlice` of the footprint relation `touchEq`): inline, or buffer index below the
+number of buffers and offset + length inside THAT buffer -/
+theorem leafOK_view_eq (ty : ViewTy) (v : Option Bits) (views : List Nat) (buffers : List Bytes) (i : Nat) :
+    leafOK (.bytesView ty v views buffers) i = (viewSlice buffers (views.getD i 0)).isSome := by
+  simp only [leafOK, viewSlice, decodeView]
+  generalize views.getD i 0 = desc
+  by_cases hc : desc % 4294967296 ≤ 12
+  · simp only [hc, if_true]; rfl
+  · simp only [hc, if_false]
+    cases hb : buffers[(desc >>> 64) % 4294967296]? with
+    | none => rfl
+    | some buf =>
+      simp only []
+      by_cases hr : (desc >>> 96) % 4294967296 + desc % 4294967296 ≤ buf.length
+      · simp only [hr, if_true, decide_true]; rfl
+      · simp only [hr, if_false, decide_false]; rfl
+
+/-- the seeded regression c17e as a statement about the readers: whatever the target, a successful read of a slot of a
+Utf8View / BinaryView column that the bitmap does not mark null had a descriptor that designates bytes of the view —
+inline, or a buffer index below the number of buffers and a range inside that buffer; never bytes of another buffer -/
+theorem readAs_view_designated {t : Target} {ty : ViewTy} {v : Option Bits} {views : List Nat} {buffers : List Bytes}
+    {i : Nat} {d : DVal} (h : readAs Fixes.all t (.bytesView ty v views buffers) i = .ok d) :
+    i < views.length ∧
+    (slotNull (.bytesView ty v views buffers) i = true ∨ (viewSlice buffers (views.getD i 0)).isSome = true) := by
+  have ht := (touchOK_leaf_iff t rfl i).mp (readAs_touch_in_range rfl h)
+  rw [leafOK_view_eq] at ht
+  exact ht
+
+/-- the same for the Utf8 / LargeUtf8 / Binary / LargeBinary columns: `0 ≤ offsets[i] ≤ offsets[i+1] ≤ data.len()` (also
+required of an empty pair: `BytesView::get` slices `data[start..end]` whatever its length) -/
+theorem readAs_bytes_designated {t : Target} {ty : BytesTy} {v : Option Bits} {offs : List Int} {data : Bytes}
+    {i : Nat} {d : DVal} (h : readAs Fixes.all t (.bytes ty v offs data) i = .ok d) :
+    i < offs.length - 1 ∧
+    (slotNull (.bytes ty v offs data) i = true ∨
+     (byteSlice data (offs.getD i 0) (offs.getD (i + 1) 0)).isSome = true) := by
+  have ht := (touchOK_leaf_iff t rfl i).mp (readAs_touch_in_range rfl h)
+  rw [leafOK_bytes_eq] at ht
+  exact ht
+
+/-- non-vacuity (the seeded regression c17e): a view column with ONE data buffer and a 13-byte element.  Descriptor
+`13` (buffer 0, offset 0) is read; with buffer index 1 (`13 + 2^64`), 2 or u32::MAX (`13 + (2^32-1)·2^64`) — offset and
+length still fit buffer 0 — `touchOK` is false and the readers give an error, on its own and inside a list; a null
+slot designates nothing, whatever its descriptor says -/
+example :
+    let buf : Bytes := [97, 32, 115, 116, 114, 105, 110, 103, 32, 62, 32, 49, 50]
+    let good : Arr := .bytesView .utf8View none [13] [buf]
+    let bad1 : Arr := .bytesView .utf8View none [18446744073709551629] [buf]
+    let bad2 : Arr := .bytesView .utf8View none [36893488147419103245] [buf]
+    let badMax : Arr := .bytesView .binaryView none [79228162495817593519834398733] [buf]
+    let nested : Arr := .list false none [0, 1] ⟨"element", false, []⟩ bad1
+    let nullSlot : Arr := .bytesView .utf8View (some ⟨[0], 0⟩) [18446744073709551629] [buf]
+    touchOK .str good 0 = true ∧ readAs Fixes.all .str good 0 = .ok (.str .borrowed buf) ∧
+    touchOK .str bad1 0 = false ∧ (readAs Fixes.all .str bad1 0).isErr = true ∧
+    touchOK .any bad2 0 = false ∧ (readAny Fixes.all bad2 0).isErr = true ∧
+    touchOK .byteBuf badMax 0 = false ∧ (readAs Fixes.all .byteBuf badMax 0).isErr = true ∧
+    touchOK (.seq .string) nested 0 = false ∧ (readAs Fixes.all (.seq .string) nested 0).isErr = true ∧
+    touchOK (.option .str) nullSlot 0 = true ∧ readAs Fixes.all (.option .str) nullSlot 0 = .ok .none := by decide
+
+/-- non-vacuity (the other leaves): an offset pair that ends beyond the data, that decreases, that starts below 0; an
+EMPTY pair beyond the data is rejected at a leaf (`BytesView::get` slices `data[5..5]`) while an empty ELEMENT range of a
+list beyond its child stays accepted (known finding `C17-empty-range-beyond-child`); a FixedSizeBinary row; the value
+slot a dictionary key designates -/
+example :
+    touchOK .string (.bytes .utf8 none [0, 3] [65, 66]) 0 = false ∧
+    touchOK .string (.bytes .utf8 none [1, 0] [65, 66]) 0 = false ∧
+    touchOK .string (.bytes .utf8 none [-1, 1] [65, 66]) 0 = false ∧
+    touchOK .string (.bytes .utf8 none [5, 5] [65, 66]) 0 = false ∧
+    (readAs Fixes.all .string (.bytes .utf8 none [5, 5] [65, 66]) 0).isErr = true ∧
+    touchOK .string (.bytes .utf8 none [2, 2] [65, 66]) 0 = true ∧
+    readAs Fixes.all .string (.bytes .utf8 none [2, 2] [65, 66]) 0 = .ok (.str .owned []) ∧
+    touchOK (.seq .string) (.list false none [7, 7] ⟨"element", false, []⟩ (.bytes .utf8 none [0] [])) 0 = true ∧
+    touchOK .bytes (.fixedSizeBinary 2 none [1, 2, 3, 4]) 1 = true ∧ touchOK .bytes (.fixedSizeBinary 2 none [1, 2, 3, 4]) 2 = false ∧
+    touchOK .str (.dictionary (.prim .int8 none [0]) (.bytes .utf8 none [0, 5] [65])) 0 = false ∧
+    (readAs Fixes.all .str (.dictionary (.prim .int8 none [0]) (.bytes .utf8 none [0, 5] [65])) 0).isErr = true := by decide
 
 /-- non-vacuity: a list of structs with a dictionary and a union column, read into `Vec<S>` with an `Option` field,
 a borrowed string and an enum; the read succeeds, the hypotheses hold -/
@@ -728,6 +845,12 @@ theorem untouched_corruption_ok {t : Target} {base corrupted : Arr} {i : Nat} {d
     readAs Fixes.all t corrupted i = .ok d := by
   rw [← untouched_ok h]; exact hbase
 
+/-- `touchOK` and `touchEq` are consistent: a view that agrees with `a` on the footprint of a SUCCESSFUL read of `a`
+(descriptor / offset pair and the bytes they designate included) is in range itself -/
+theorem untouched_touch_in_range {t : Target} {a a' : Arr} {i : Nat} {d : DVal} (hids : unionIdsOK a' = true)
+    (hbase : readAs Fixes.all t a i = .ok d) (h : touchEq t a a' i = true) : touchOK t a' i = true :=
+  readAs_touch_in_range hids (untouched_corruption_ok hbase h)
+
 /-- at the record level, exactly the expression the suite evaluates: `touchEq r.ty (record fm base) (record fm view) r.idx` -/
 theorem readRecord_untouched {t : Target} {fm fm' : FieldMeta} {base col : Arr} {idx : Nat}
     (h : touchEq t (record fm base) (record fm' col) idx = true) :
@@ -784,7 +907,8 @@ example :
   decide
 
 /-- the converse does not hold, and is not claimed: equal results with a differing footprint happen by coincidence — a
-corrupted offset pair that designates equal bytes (the run-time tag `untouched-coincidence`); and the relation is not
+corrupted offset pair that designates equal bytes (at run time such a case needs no escape: the Arrow reading of the
+corrupted view accepts the slot and gives the same value; an unexplained coincidence is a violation there); and the relation is not
 idle: a byte INSIDE the designated slice, the validity bit of the row, a field the target names make it false -/
 example :
     let a : Arr := .bytes .utf8 none [0, 1, 2] [65, 65]
